@@ -119,7 +119,7 @@ def main():
                 if len(ins) < 2:
                     ins.append(rand_input())
                 progs.append(('generated/' + name, b, ins))
-    maxsteps = 400000 if not ck.thorough() else 3000000
+    maxsteps = 300000 if not ck.thorough() else 3000000
     seeds = [1, 2, 3]
     dist = {'judged': 0, 'not_well_behaved': 0, 'no_exit_within_budget': 0}
     why_counts = {}
@@ -135,6 +135,11 @@ def main():
             mon = parse_kv(o)
             if rc != 0 or 'end' not in mon:
                 ck.broken.append('ISA monitor failed on %s: %s' % (name, (o + e)[-200:]))
+                continue
+            if mon['end'] != 'exit':
+                # the ISA run does not exit within the budget (or is undefined): outside what is judged; not run on the executables
+                dist['no_exit_within_budget'] += 1
+                ck.cov['evaluations'] += 1
                 continue
             cyc = str(2 * mon['steps'] + 1000)
             # hexsim: executable (stdout, exit status) + harness (input consumed)
@@ -154,9 +159,6 @@ def main():
             same = all(t == {'rc': sim['rc'], 'out': sim['out']} for t in tbs) and th.get('consumed') == sim['consumed'] and \
                 th.get('out') == sim['out'] and (th.get('rc', 0) & 0xff) == sim['rc'] and 'throw' not in th
             same_isa = sim['rc'] == isa['rc'] and sim['out'] == isa['out'] and sim['consumed'] == isa['consumed']
-            if mon['end'] != 'exit':
-                dist['no_exit_within_budget'] += 1
-                continue
             if not mon['wb']:
                 dist['not_well_behaved'] += 1
                 k = mon['why'].split('-')[2] if mon['why'].startswith('step-') else mon['why']
